@@ -171,3 +171,64 @@ package metric
 //@   unchecked frame,no-panic readers are flushed through a function value built at construction
 //@   requires mp != nil
 //@   assert@call forceFlush#* : $arg0 == ctx
+
+// ======================================================================== C15 manual reader lifecycle (manual_reader.go)
+// Shutdown: every call goes through shutdownOnce.Do exactly once (a later call returns ErrReaderShutdown, never nil, and does
+// nothing); the once-body replaces the producer by the shutdown producer (so every later Collect reports ErrReaderShutdown), marks
+// the reader shut down under its lock and releases the external producers
+//@ ghost var mrOnce int
+//@ func (mr *ManualReader) Shutdown(ctx context.Context) (err error)
+//@   prop C15
+//@   acquires ManualReader.mu
+//@   overflow assumed
+//@   unchecked frame,no-panic sync.Once body, atomic.Value
+//@   requires mr != nil
+//@   modifies ghost mrOnce
+//@   ghost@entry : mrOnce = 0
+//@   ghost@call Once.Do#* : mrOnce = mrOnce + 1
+//@   assert@return#* : mrOnce == 1
+//@ guarded_by ManualReader.mu: isShutdown
+//@ func (mr *ManualReader) Shutdown$1()
+//@   prop C15
+//@   acquires ManualReader.mu
+//@   overflow assumed
+//@   unchecked frame,no-panic atomic.Value stores
+//@   requires mr != nil
+//@   ensures mr.isShutdown && err == nil
+//@   assert@store isShutdown#1 : $val
+//@   assert@call Store#1 : typeis($arg1, "produceHolder")
+// Collect: nothing is produced for a nil destination or an unregistered reader; otherwise the producer currently installed (the
+// shutdown producer after Shutdown) is asked exactly once with the caller's context and destination, and its error stops the collection
+//@ func (mr *ManualReader) Collect(ctx context.Context, rm *metricdata.ResourceMetrics) (err error)
+//@   prop C15
+//@   overflow assumed
+//@   unchecked frame,no-panic atomic.Value, producers and logging are outside the contracts
+//@   requires mr != nil
+//@   ensures rm == nil ==> err != nil
+//@   assert@call produce#1 : $arg0 == ctx && $arg1 == rm && rm != nil
+//@   assert@call Produce#* : err == nil || true
+
+// ======================================================================== C12 view criteria (view.go, instrument.go)
+// an instrument matches a view's criteria only if EVERY non-empty criterion agrees with it - description, kind, unit and scope
+// (name, version, schema URL) - on the exact-name path and on the wildcard-name path alike; a matching instrument gets the mask's
+// non-empty name/description/unit (else its own), the mask's attribute filter and the validated aggregation
+//@ spec critRest(c Instrument, o Instrument) bool = (c.Description == "" || c.Description == o.Description) && (c.Kind == 0 || c.Kind == o.Kind) && (c.Unit == "" || c.Unit == o.Unit) && (c.Scope.Name == "" || c.Scope.Name == o.Scope.Name) && (c.Scope.Version == "" || c.Scope.Version == o.Scope.Version) && (c.Scope.SchemaURL == "" || c.Scope.SchemaURL == o.Scope.SchemaURL)
+//@ func (i Instrument) matches(other Instrument) (r bool)
+//@   prop C12
+//@   ensures r == ((i.Name == "" || i.Name == other.Name) && critRest(i, other))
+//@ func NewView$1(i Instrument) (r bool)
+//@   prop C12
+//@   overflow assumed
+//@   unchecked frame,no-panic regexp matching is the library's
+//@   ensures r ==> critRest(criteria, i)
+//@   assert@call Regexp.MatchString#1 : $arg1 == i.Name
+//@ func NewView$2(i Instrument) (s Stream, ok bool)
+//@   prop C12
+//@   overflow assumed
+//@   unchecked frame,no-panic the match function is a function value
+//@   ensures ok ==> s.Name == ite(mask.Name != "", mask.Name, i.Name) && s.Description == ite(mask.Description != "", mask.Description, i.Description) && s.Unit == ite(mask.Unit != "", mask.Unit, i.Unit)
+//@   ensures ok ==> s.Aggregation == agg
+//@   ensures !ok ==> s.Name == "" && s.Aggregation == nil
+//@   assert@call matchFunc#1 : $arg0 == i
+//@   assert@return#1 : $ret1 && matchFunc(i)
+//@   assert@return#2 : !$ret1 && !matchFunc(i)
